@@ -56,6 +56,11 @@ type Thread struct {
 	// and callbacks run in a nested RunContinuation, which uses Go stack.
 	luaReentryDepth int
 
+	// Number of threads on the chain of resumers of this thread.  Each of them
+	// is a goroutine blocked in Resume, so the nesting is bounded like the
+	// other kinds of nesting that use Go resources.
+	resumeDepth int
+
 	DebugHooks
 
 	closeStack // Stack of pending to-be-closed values
@@ -225,10 +230,15 @@ func (t *Thread) Resume(caller *Thread, args []Value) ([]Value, error) {
 			return nil, errors.New("cannot resume running thread")
 		}
 	}
+	if caller.resumeDepth >= maxGoFunctionCallDepth {
+		t.mux.Unlock()
+		return nil, errors.New("stack overflow")
+	}
 	caller.mux.Lock()
 	if caller.status != ThreadOK {
 		panic("Caller of thread to resume is not running")
 	}
+	t.resumeDepth = caller.resumeDepth + 1
 	t.caller = caller
 	t.status = ThreadOK
 	t.mux.Unlock()
